@@ -701,6 +701,7 @@ class Body:
         if hasattr(self, '_fg'):
             return self._fg
         g = defaultdict(set)
+        self._mut_edges = {}   # (target local, source local) -> blocks of the mutating calls
         for bi in range(self.n):
             if self.cleanup[bi]:
                 continue
@@ -732,6 +733,7 @@ class Body:
                         for o in alocs:
                             if o != a:
                                 g[tgt].add(o)
+                                self._mut_edges.setdefault((tgt, o), set()).add(bi)
             elif t and t['k'] == 'yield':
                 l = op_local(t['op'])
                 if l is not None:
